@@ -78,21 +78,27 @@ CODES["C03"].update({
     "2:37": "Queued returned on an idle machine",
 })
 CODES["C05"].update({
+    "2:592": "a called Auto state vetoed by its own negotiation handler ended up active (brought back by the re-resolution)",
+    "2:591": "an auto transition activated a state through the re-resolution after partial acceptance without consulting its negotiation handlers",
     "2:51": "handlers of one transition ran out of the documented phase order",
     "2:52": "a negotiation handler did not observe the machine as it was before the transition",
     "2:53": "a final handler did not observe the applied target",
     "2:54": "a negotiation handler returned false but the transition went on",
     "2:55": "final handlers did not run exactly once per changed state per binding",
     "2:56": "a final handler ran in a transition that was not accepted",
+    "2:59": "a bound negotiation handler of an applied transition was not consulted exactly once",
     "2:57": "a state's handler ran before the handler of a state it Requires",
     "2:580": "a state's handler ran before the handler of an adjacent state it lists in After",
     "2:581": "a state's handler ran before the handler of a state it lists in After (separated by other states)",
 })
 CODES["C07"].update({
+    "2:592": "a called Auto state vetoed by its own negotiation handler ended up active (brought back by the re-resolution)",
+    "2:591": "an auto transition activated a state through the re-resolution after partial acceptance without consulting its negotiation handlers",
     "2:71": "an accepted, state-changing mutation was not followed by the auto mutation calling exactly the inactive unblocked Auto states",
     "2:72": "an auto mutation followed a transition that must not trigger one",
     "2:73": "a called Auto state accepted by relations and not vetoed by its own handlers did not end up active",
     "2:74": "a panic escaped to the caller",
+    "2:59": "a bound negotiation handler of an applied transition was not consulted exactly once (an Auto state was activated without being judged)",
 })
 CODES["C08"].update({
     "2:80": "tick parity does not match activity after a fault",
